@@ -179,7 +179,7 @@ func batchEquiv(x *wctx, hist []uint16, op *opDef, out *caseOut, st *transStats)
 		slots += t.slots
 	}
 	// a full pool evicts (and throttles further evictions until the next reorg run): not comparable
-	if slots > cfgGlobalSlots+cfgGlobalQueue || len(setDiff(want, postSet)) > 0 || len(want) != len(postSet) {
+	if slots > out.pre.lim.GS+out.pre.lim.GQ || len(setDiff(want, postSet)) > 0 || len(want) != len(postSet) {
 		r.Add("batch_equiv_skipped_limits", 1)
 		return
 	}
